@@ -127,8 +127,9 @@ impl BlteFile {
     /// decompressed size from chunk headers or chunk metadata.
     pub fn decompress(&self) -> BlteResult<Vec<u8>> {
         // Performance: Pre-allocate with estimated total decompressed size
+        // The estimate comes from the chunk table: never reserve more than the decompression cap up front
         let total_size = self.estimate_decompressed_size();
-        let mut result = Vec::with_capacity(total_size);
+        let mut result = Vec::with_capacity(total_size.min(compression::MAX_DECOMPRESSION_SIZE));
 
         for (index, chunk) in self.chunks.iter().enumerate() {
             let decompressed = chunk.decompress(index)?;
@@ -157,8 +158,9 @@ impl BlteFile {
         }
 
         // Performance: Pre-allocate with estimated total decompressed size
+        // The estimate comes from the chunk table: never reserve more than the decompression cap up front
         let total_size = self.estimate_decompressed_size();
-        let mut result = Vec::with_capacity(total_size);
+        let mut result = Vec::with_capacity(total_size.min(compression::MAX_DECOMPRESSION_SIZE));
 
         for (index, chunk) in self.chunks.iter().enumerate() {
             let decompressed = if chunk.mode == CompressionMode::Encrypted {
